@@ -89,7 +89,9 @@ def parseKind : String → Option Kind
   | "tcpr" => some .tcpr | _ => none
 
 def parseTyp : String → Option EvT
-  | "c" => some .create | "u" => some .update | "d" => some .delete | "g" => some .generic | _ => none
+  | "c" => some .create | "u" => some .update | "d" => some .delete | "g" => some .generic
+  | "D" => some .delete   -- a delete with DeleteStateUnknown (tombstone): the same event for the batch
+  | _ => none
 
 def parseOp (id : Nat) (s : String) : Option Op :=
   if s = "S" then some .swap else
